@@ -70,7 +70,23 @@ pub struct RunOut {
     pub max_depth: usize,
     pub is_done: bool,
     pub assert_properties_ok: Option<bool>,
+    /// Per property (when asserts were requested): what the `Checker` helper methods said.
+    pub helpers: Vec<HelperView>,
     pub elapsed: Duration,
+}
+
+/// The verdict of one property as the `Checker` trait's helper methods present it.
+#[derive(Debug, Clone)]
+pub struct HelperView {
+    pub name: &'static str,
+    /// `discovery(name)` as a state path.
+    pub discovery: Option<PathVec>,
+    pub assert_any_discovery_ok: bool,
+    pub assert_no_discovery_ok: bool,
+    /// `assert_discovery(name, <actions of the reported path>)`; `None` if nothing was reported.
+    pub assert_discovery_of_reported_path_ok: Option<bool>,
+    /// `assert_discovery(name, [])` (the empty action list denotes the initial states).
+    pub assert_discovery_of_empty_path_ok: bool,
 }
 
 pub fn builder(model: GraphModel, cfg: &RunCfg, log: &VisitLog, slog: &StateLog) -> CheckerBuilder<GraphModel> {
@@ -146,6 +162,19 @@ fn collect<C: Checker<GraphModel>>(checker: &C, out: &mut RunOut, want_assert: b
     }
     if want_assert {
         out.assert_properties_ok = Some(guarded(|| checker.assert_properties()).is_ok());
+        for p in checker.model().properties() {
+            let name = p.name;
+            let discovery = guarded(|| checker.discovery(name)).ok().flatten();
+            let reported_actions = discovery.clone().map(|d| d.into_actions());
+            out.helpers.push(HelperView {
+                name,
+                discovery: discovery.map(|d| d.into_vec()),
+                assert_any_discovery_ok: guarded(|| checker.assert_any_discovery(name)).is_ok(),
+                assert_no_discovery_ok: guarded(|| checker.assert_no_discovery(name)).is_ok(),
+                assert_discovery_of_reported_path_ok: reported_actions.map(|a| guarded(|| checker.assert_discovery(name, a)).is_ok()),
+                assert_discovery_of_empty_path_ok: guarded(|| checker.assert_discovery(name, Vec::new())).is_ok(),
+            });
+        }
     }
 }
 
